@@ -258,10 +258,12 @@ def write_replay(pid, obj):
 
 
 def write_evidence(pid, tier, seed, level, coverage, wall, violations=0, assumptions=()):
-    os.makedirs(EVID, exist_ok=True)
+    # evidence describes /repo; a run against a scratch copy (VERIF_REPO: seeded changes, reverted fixes) leaves it alone
+    evid = EVID if os.path.realpath(REPO) == "/repo" else os.path.join(VERIF, "out", "evidence-scratch")
+    os.makedirs(evid, exist_ok=True)
     ev = {"property_id": pid, "tier": tier, "seed": int(seed), "level": level, "coverage": coverage,
           "assumptions": list(assumptions), "wall_s": round(wall, 2), "violations": int(violations)}
-    p = os.path.join(EVID, pid + ".json")
+    p = os.path.join(evid, pid + ".json")
     tmp = p + ".tmp"
     with open(tmp, "w") as f:
         json.dump(ev, f, indent=1)
